@@ -1,6 +1,653 @@
-//! C15 — harness module not built yet.
+//! C15 — splits pay members in exact proportion and never more than is held.
+//! Runs histories (deposits, group changes, admin changes, distributions) on the real
+//! cw4-group + sg-splits, records per-step observations as Coq terms for the model
+//! comparison, and evaluates the property text on the observed balances as monitors.
+use crate::chain;
+use crate::util::*;
+use crate::w_splits::*;
 use crate::Args;
-pub fn run(_a: &Args) {
-    eprintln!("C15: harness module not built yet");
-    std::process::exit(2);
+use serde::{Deserialize, Serialize};
+use std::collections::{BTreeMap, BTreeSet};
+
+#[derive(Clone, Debug, Serialize, Deserialize, PartialEq, Eq, PartialOrd, Ord)]
+pub enum Case {
+    /// instantiate splits over an existing group with these members
+    Inst { members: Vec<(String, u64)> },
+    Hist(Hist),
+}
+
+const MAX_MEMBERS_DOC: usize = 25; // "more than 25" in the property text
+
+struct StepOut {
+    kind: &'static str,
+    ok: bool,
+}
+struct Outcome {
+    coq: String,
+    viol: Vec<(String, String)>,
+    steps: Vec<StepOut>,
+    paid_something: bool,
+}
+
+type Bal = BTreeMap<(String, usize), u128>;
+
+fn snapshot(w: &World, accounts: &[String]) -> Bal {
+    let mut m = BTreeMap::new();
+    for a in accounts {
+        for d in 0..DENOMS.len() {
+            m.insert((a.clone(), d), w.bal(a, d));
+        }
+    }
+    m
+}
+
+fn run_inst(members: &[(String, u64)]) -> Outcome {
+    let (gok, sok) = match instantiate_existing(&Some(ADMIN.to_string()), &Some(GADMIN.to_string()), members) {
+        Ok(_) => (true, true),
+        Err("group") => (false, false),
+        Err(_) => (true, false),
+    };
+    Outcome {
+        coq: format!("CInst {} {} {}", coq_members(members), coq_bool(gok), coq_bool(sok)),
+        viol: vec![],
+        steps: vec![StepOut { kind: "instantiate", ok: gok && sok }],
+        paid_something: false,
+    }
+}
+
+fn run_hist(h: &Hist) -> Outcome {
+    let made = match h.mode {
+        Mode::Existing => instantiate_existing(&h.admin, &h.gadmin, &h.members),
+        Mode::Reply => instantiate_reply(&h.admin, &h.gadmin, &h.members),
+    };
+    let mut w = match made {
+        Ok(w) => w,
+        Err(stage) => {
+            // no contract to drive: record the instantiate outcome itself
+            let (gok, sok) = if stage == "group" || h.mode == Mode::Reply { (false, false) } else { (true, false) };
+            return Outcome {
+                coq: format!("CInst {} {} {}", coq_members(&h.members), coq_bool(gok), coq_bool(sok)),
+                viol: vec![],
+                steps: vec![StepOut { kind: "instantiate", ok: false }],
+                paid_something: false,
+            };
+        }
+    };
+    let me = w.me();
+    let mut accounts = accounts_of(h);
+    accounts.push(me.clone());
+    let mut viol: Vec<(String, String)> = vec![];
+    let mut steps_coq = vec![];
+    let mut steps = vec![];
+    let mut paid_something = false;
+    for (i, op) in h.ops.iter().enumerate() {
+        // ---- before
+        let before = snapshot(&w, &accounts);
+        let dig_s = chain::storage_digest(&w.app, &w.splits);
+        let dig_g = chain::storage_digest(&w.app, &w.group);
+        let members_before = w.group_members();
+        let admin_before = w.splits_admin();
+        let handler = match op {
+            Op::Distribute { sender, denoms } => Some(w.handler_distribute(&resolve(sender, &me), denoms)),
+            _ => None,
+        };
+        // ---- the step
+        let r = w.apply(op);
+        let ok = r.is_ok();
+        // ---- after
+        let after = snapshot(&w, &accounts);
+        let page = w.splits_page();
+        let total = w.group_total();
+        let admin_after = w.splits_admin();
+
+        // ---- monitors (property text; documented numbers; nothing shared with the model)
+        let mut v = |key: &str, what: String| viol.push((format!("C15:{}", key), format!("step {} {:?}: {}", i, op, what)));
+        if !ok {
+            if before != after {
+                v("rejected-but-coins-moved", "a refused call changed balances".into());
+            }
+            if dig_s != chain::storage_digest(&w.app, &w.splits) || dig_g != chain::storage_digest(&w.app, &w.group) {
+                v("rejected-but-state-changed", "a refused call changed contract storage".into());
+            }
+        }
+        // the contract never creates or loses coins: per denom, the tracked total moves only by deposits
+        for d in 0..DENOMS.len() {
+            let sum = |b: &Bal| accounts.iter().map(|a| b[&(a.clone(), d)]).fold(0u128, |x, y| x.saturating_add(y));
+            let dep = match op {
+                Op::Deposit { denom, amt } if *denom == d => *amt,
+                _ => 0,
+            };
+            if sum(&after) != sum(&before).saturating_add(dep) {
+                v("coins-not-conserved", format!("denom {}: total {} -> {} (deposit {})", DENOMS[d], sum(&before), sum(&after), dep));
+            }
+        }
+        if let Op::Distribute { sender, denoms } = op {
+            let sender = resolve(sender, &me);
+            let wsum: u128 = members_before.iter().map(|(_, x)| *x as u128).sum();
+            let n = members_before.len();
+            let entitled = match &admin_before {
+                Some(a) => *a == sender,
+                None => members_before.iter().any(|(a, _)| *a == sender),
+            };
+            let considered: BTreeSet<usize> = match denoms {
+                Some(v) => v.iter().cloned().collect(),
+                None => (0..DENOMS.len()).collect(),
+            };
+            let held = |d: usize| before[&(me.clone(), d)];
+            let mult = |d: usize| if wsum == 0 { 0 } else { held(d) / wsum };
+            let something = considered.iter().any(|d| mult(*d) >= 1);
+            let dup_paying = match denoms {
+                Some(v) => considered.iter().any(|d| mult(*d) >= 1 && v.iter().filter(|x| *x == d).count() > 1),
+                None => false,
+            };
+            let self_weight = members_before.iter().find(|(x, _)| *x == me).map(|(_, x)| *x).unwrap_or(0);
+            if ok && dup_paying && self_weight > 0 {
+                // the one shape in which a duplicated denom does not exhaust the balance: the
+                // contract's own share flows back to it (reported under its own key)
+                paid_something = true;
+                let over = accounts.iter().filter(|a| **a != me).any(|a| {
+                    let wt = members_before.iter().find(|(x, _)| x == a).map(|(_, x)| *x as u128).unwrap_or(0);
+                    considered.iter().any(|d| after[&(a.clone(), *d)].wrapping_sub(before[&(a.clone(), *d)]) != wt * mult(*d))
+                });
+                if over {
+                    v("self-member-duplicate-denom", format!("the contract is a member of its own group (weight {}) and a denom is listed twice: members received more than weight x floor(balance/total)", self_weight));
+                }
+            } else if ok {
+                paid_something = true;
+                if !entitled {
+                    v("accepted-not-entitled", format!("sender {} is neither the admin nor (without admin) a member", sender));
+                }
+                if wsum == 0 {
+                    v("accepted-zero-weight", "group has no weight".into());
+                }
+                if n == 0 || n > MAX_MEMBERS_DOC {
+                    v("accepted-group-size", format!("group has {} members", n));
+                }
+                if !something {
+                    v("accepted-nothing-to-distribute", "no listed denom holds at least the total weight".into());
+                }
+                for d in 0..DENOMS.len() {
+                    let k = if considered.contains(&d) { mult(d) } else { 0 };
+                    let mut total_paid: u128 = 0;
+                    for a in accounts.iter().filter(|a| **a != me) {
+                        let wt = members_before.iter().find(|(x, _)| x == a).map(|(_, x)| *x as u128).unwrap_or(0);
+                        let got = after[&(a.clone(), d)].wrapping_sub(before[&(a.clone(), d)]);
+                        total_paid = total_paid.saturating_add(got);
+                        match wt.checked_mul(k) {
+                            Some(want) if want == got => {}
+                            _ => v("wrong-share", format!("{} weight {} of {} holding {} {}: received {}, expected weight x floor(balance/total) = {} x {}", a, wt, wsum, held(d), DENOMS[d], got, wt, k)),
+                        }
+                    }
+                    if total_paid > held(d) {
+                        v("overpaid", format!("paid {} of {} held {}", total_paid, DENOMS[d], held(d)));
+                    }
+                    let self_w = members_before.iter().find(|(x, _)| *x == me).map(|(_, x)| *x as u128).unwrap_or(0);
+                    let left = after[&(me.clone(), d)];
+                    if considered.contains(&d) && wsum > 0 && self_w == 0 && left >= wsum {
+                        v("remainder-not-below-total-weight", format!("{} left {} with total weight {}", DENOMS[d], left, wsum));
+                    }
+                    if wsum > 0 && left != held(d) - (wsum - self_w) * k {
+                        v("wrong-remainder", format!("{}: held {}, left {}, expected {}", DENOMS[d], held(d), left, held(d) - (wsum - self_w) * k));
+                    }
+                }
+            } else if entitled && wsum > 0 && n >= 1 && n <= MAX_MEMBERS_DOC && something && !dup_paying {
+                v("refused-valid-distribution", format!("entitled sender {}, {} members, total weight {}, funds present: {}", sender, n, wsum, r.as_ref().unwrap_err()));
+            }
+        }
+        drop(v);
+
+        // ---- observation for the model
+        let msgs = match &handler {
+            None => "None".to_string(),
+            Some(Err(_)) => "(Some Err)".to_string(),
+            Some(Ok(ms)) => {
+                let mut ms: Vec<(u64, u64, u128)> = ms
+                    .iter()
+                    .map(|(to, d, a)| if to.starts_with("UNCLASSIFIED") { (0, 0, 0) } else { (addr_id(to), denom_id(*d), *a) })
+                    .collect();
+                ms.sort();
+                format!("(Some (Ok {}))", coq_list(&ms.iter().map(|(t, d, a)| format!("Send {} {} {}", t, d, a)).collect::<Vec<_>>()))
+            }
+        };
+        let used: BTreeSet<usize> = h.ops.iter().filter_map(|o| if let Op::Deposit { denom, .. } = o { Some(*denom) } else { None }).collect();
+        let bals = coq_list(
+            &after.iter().filter(|((_, d), _)| used.contains(d)).map(|((a, d), x)| format!("({}, {}, {})", addr_id(a), denom_id(*d), x)).collect::<Vec<_>>(),
+        );
+        steps_coq.push(format!(
+            "({}, mkObs {} {} {} {} {} {})",
+            coq_op(op),
+            coq_bool(ok),
+            msgs,
+            bals,
+            coq_members(&page),
+            total,
+            coq_opt_addr(&admin_after)
+        ));
+        steps.push(StepOut {
+            kind: match op {
+                Op::Deposit { .. } => "deposit",
+                Op::UpdateMembers { .. } => "update_members",
+                Op::UpdateAdmin { .. } => "update_admin",
+                Op::Distribute { denoms: Some(_), .. } => "distribute_explicit",
+                Op::Distribute { denoms: None, .. } => "distribute_all",
+            },
+            ok,
+        });
+    }
+    Outcome {
+        coq: format!(
+            "CHist {} {} {} {} {}",
+            SELF_ID,
+            coq_opt_addr(&h.admin),
+            coq_opt_addr(&h.gadmin),
+            coq_members(&h.members),
+            coq_list(&steps_coq)
+        ),
+        viol,
+        steps,
+        paid_something,
+    }
+}
+
+fn run_case(c: &Case) -> Outcome {
+    match c {
+        Case::Inst { members } => run_inst(members),
+        Case::Hist(h) => run_hist(h),
+    }
+}
+
+/// drop ops one at a time while the same violation key still shows
+fn shrink(h: &Hist, key: &str) -> Hist {
+    let mut cur = h.clone();
+    let mut i = cur.ops.len();
+    while i > 0 {
+        i -= 1;
+        let mut t = cur.clone();
+        t.ops.remove(i);
+        if run_hist(&t).viol.iter().any(|(k, _)| k == key) {
+            cur = t;
+        }
+    }
+    cur
+}
+
+// ---------------- generators ----------------
+fn mem(i: u64, w: u64) -> (String, u64) {
+    (member_name(i), w)
+}
+fn group_of(n: u64, wf: impl Fn(u64) -> u64) -> Vec<(String, u64)> {
+    (0..n).map(|i| mem(i, wf(i))).collect()
+}
+fn some(s: &str) -> Option<String> {
+    Some(s.to_string())
+}
+fn dist(sender: &str, denoms: Option<Vec<usize>>) -> Op {
+    Op::Distribute { sender: sender.to_string(), denoms }
+}
+fn dep(denom: usize, amt: u128) -> Op {
+    Op::Deposit { denom, amt }
+}
+fn upd(adds: Vec<(String, u64)>, rems: Vec<String>) -> Op {
+    Op::UpdateMembers { sender: GADMIN.to_string(), adds, rems }
+}
+fn hist(mode: Mode, admin: Option<String>, members: Vec<(String, u64)>, ops: Vec<Op>) -> Case {
+    Case::Hist(Hist { mode, admin, gadmin: some(GADMIN), members, ops })
+}
+fn total(ms: &[(String, u64)]) -> u128 {
+    ms.iter().map(|(_, w)| *w as u128).sum()
+}
+
+fn corpus() -> Vec<Case> {
+    let mut c = vec![];
+    // the repo's own test shape: three members, one denom
+    let g3 = vec![mem(1, 50), mem(2, 30), mem(3, 20)];
+    c.push(hist(Mode::Existing, some(ADMIN), g3.clone(), vec![dep(2, 1000), dist(ADMIN, None), dep(2, 99), dist(ADMIN, None), dep(2, 1), dist(ADMIN, None)]));
+    c.push(hist(Mode::Reply, some(ADMIN), g3.clone(), vec![dep(2, 1234), dep(0, 777), dist(ADMIN, Some(vec![2])), dist(ADMIN, None)]));
+    // duplicated denom in an explicit list: sends exceed the balance, everything reverts
+    c.push(hist(Mode::Existing, some(ADMIN), g3.clone(), vec![dep(2, 1000), dist(ADMIN, Some(vec![2, 2])), dist(ADMIN, Some(vec![2]))]));
+    c.push(hist(Mode::Existing, some(ADMIN), g3.clone(), vec![dep(2, 1000), dep(1, 50), dist(ADMIN, Some(vec![1, 1, 2])), dist(ADMIN, Some(vec![2, 1, 2]))]));
+    // zero-weight members get nothing but may trigger a distribution when no admin is set
+    let gz = vec![mem(1, 0), mem(2, 7), mem(3, 0), mem(4, 1)];
+    c.push(hist(Mode::Existing, None, gz.clone(), vec![dep(2, 100), dist(STRANGER, None), dist(ADMIN, None), dist(&member_name(1), None)]));
+    c.push(hist(Mode::Existing, some(ADMIN), gz.clone(), vec![dep(2, 100), dist(&member_name(2), None), dist(ADMIN2, None), dist(ADMIN, None)]));
+    // the contract itself as a member
+    c.push(hist(Mode::Existing, some(ADMIN), vec![(SELF.to_string(), 3), mem(1, 5)], vec![dep(0, 83), dist(ADMIN, None), dist(ADMIN, None)]));
+    c.push(hist(Mode::Reply, None, vec![(SELF.to_string(), 1), mem(1, 1)], vec![dep(3, 9), dist(SELF, None), dist(&member_name(1), Some(vec![3]))]));
+    // known finding: the contract in its own group + a denom listed twice => the duplicated sends go through
+    c.push(hist(Mode::Existing, some(ADMIN), vec![(SELF.to_string(), 1), mem(1, 1)], vec![dep(2, 10), dist(ADMIN, Some(vec![2, 2]))]));
+    // admin hand-over and renounce
+    c.push(hist(
+        Mode::Existing,
+        some(ADMIN),
+        g3.clone(),
+        vec![
+            dep(2, 500),
+            Op::UpdateAdmin { sender: STRANGER.into(), new_admin: some(STRANGER) },
+            Op::UpdateAdmin { sender: ADMIN.into(), new_admin: some(ADMIN2) },
+            dist(ADMIN, None),
+            dist(ADMIN2, None),
+            dep(2, 500),
+            Op::UpdateAdmin { sender: ADMIN2.into(), new_admin: None },
+            dist(ADMIN2, None),
+            dist(&member_name(3), None),
+            Op::UpdateAdmin { sender: ADMIN2.into(), new_admin: some(ADMIN2) },
+        ],
+    ));
+    // weight changes between distributions, incl. to total weight 0 and back
+    c.push(hist(
+        Mode::Existing,
+        some(ADMIN),
+        g3.clone(),
+        vec![
+            dep(2, 1001),
+            dist(ADMIN, None),
+            upd(vec![mem(1, 0), mem(2, 0), mem(3, 0)], vec![]),
+            dep(2, 10),
+            dist(ADMIN, None),
+            upd(vec![mem(4, 3)], vec![member_name(1)]),
+            dist(ADMIN, None),
+            upd(vec![], vec![member_name(2), member_name(3), member_name(4)]),
+            dist(ADMIN, None),
+        ],
+    ));
+    c
+}
+
+fn boundary(rng: &mut Rng) -> Vec<Case> {
+    let mut c = vec![];
+    // instantiate guards over an existing group: sizes around 25 and the 30-entry page, weights
+    for n in [0u64, 1, 2, 24, 25, 26, 27, 29, 30, 31, 32, 40] {
+        c.push(Case::Inst { members: group_of(n, |_| 1) });
+        c.push(Case::Inst { members: group_of(n, |i| if i == 0 { 0 } else { 2 }) });
+        c.push(Case::Inst { members: group_of(n, |_| 0) });
+    }
+    c.push(Case::Inst { members: vec![mem(1, 1), mem(1, 2)] });
+    c.push(Case::Inst { members: vec![mem(1, u64::MAX), mem(2, 1)] });
+    c.push(Case::Inst { members: vec![mem(1, u64::MAX - 1), mem(2, 1)] });
+    c.push(Case::Inst { members: vec![mem(1, u64::MAX)] });
+    // distribute guards: group sizes (reply path: no check at instantiate), both list forms
+    for n in [0u64, 1, 2, 24, 25, 26, 29, 30, 31, 33] {
+        for (wk, wf) in [(0, Box::new(|_| 1u64) as Box<dyn Fn(u64) -> u64>), (1, Box::new(|i| (i % 3) as u64)), (2, Box::new(|_| 0u64))] {
+            let ms = group_of(n, &wf);
+            let w = total(&ms).max(1);
+            let _ = wk;
+            c.push(hist(
+                Mode::Reply,
+                some(ADMIN),
+                ms,
+                vec![dep(2, 3 * w + 1), dep(0, w - 1), dist(ADMIN, Some(vec![2, 0])), dep(0, 1), dist(ADMIN, None), dist(ADMIN, None)],
+            ));
+        }
+    }
+    // crossing the cap by group changes after instantiate: 25 -> 26 -> 25, 30 -> 31
+    c.push(hist(
+        Mode::Existing,
+        some(ADMIN),
+        group_of(25, |_| 2),
+        vec![
+            dep(2, 1000),
+            dist(ADMIN, None),
+            upd(vec![mem(25, 2)], vec![]),
+            dep(2, 1000),
+            dist(ADMIN, None),
+            upd(vec![mem(26, 1), mem(27, 1), mem(28, 1), mem(29, 1), mem(30, 1)], vec![]),
+            dist(ADMIN, None),
+            upd(vec![], (24..31).map(member_name).collect()),
+            dist(ADMIN, None),
+            upd(vec![mem(24, 0)], vec![]),
+            dep(2, 77),
+            dist(ADMIN, None),
+        ],
+    ));
+    // balances around multiples of the total weight, per denom, every list form
+    for ms in [vec![mem(1, 1)], vec![mem(1, 3), mem(2, 4)], vec![mem(1, 1), mem(2, 0), mem(3, 1_000_000_007)], group_of(25, |i| i + 1)] {
+        let w = total(&ms);
+        for b in [w - 1, w, w + 1, 2 * w - 1, 2 * w, 2 * w + 1, 1000 * w + w / 2] {
+            let other = rng.below(3 * w as u64 + 1) as u128;
+            c.push(hist(
+                Mode::Existing,
+                some(ADMIN),
+                ms.clone(),
+                vec![dep(2, b), dep(1, other), dist(ADMIN, Some(vec![2])), dist(ADMIN, Some(vec![3, 2, 1, 0])), dist(ADMIN, None)],
+            ));
+        }
+    }
+    // large weights and balances: products near u128, total weight near u64
+    let big = vec![mem(1, u64::MAX / 2), mem(2, u64::MAX / 2), mem(3, 1)];
+    c.push(hist(Mode::Existing, some(ADMIN), big.clone(), vec![dep(2, u128::MAX / 2), dist(ADMIN, None), dep(2, u64::MAX as u128 - 1), dist(ADMIN, None), dist(ADMIN, None)]));
+    c.push(hist(Mode::Existing, some(ADMIN), vec![mem(1, u64::MAX)], vec![dep(0, u128::MAX - 5), dist(ADMIN, None), dist(ADMIN, None)]));
+    c.push(hist(Mode::Existing, some(ADMIN), vec![mem(1, 1), mem(2, 0)], vec![dep(0, u128::MAX - 5), dist(ADMIN, None), dep(0, 5), dist(ADMIN, None)]));
+    // group total overflowing u64 through an update (rejected by the group, nothing changes)
+    c.push(hist(Mode::Existing, some(ADMIN), big.clone(), vec![upd(vec![mem(4, 2)], vec![]), upd(vec![mem(3, 2), mem(4, 1)], vec![member_name(1)]), dep(2, u128::MAX / 4), dist(ADMIN, None)]));
+    // every sender role, with and without an admin
+    for admin in [some(ADMIN), None] {
+        let ms = vec![mem(1, 2), mem(2, 0), mem(3, 5)];
+        let mut ops = vec![];
+        for s in [STRANGER.to_string(), GADMIN.to_string(), ADMIN2.to_string(), member_name(2), member_name(1), ADMIN.to_string(), member_name(4), SELF.to_string()] {
+            ops.push(dep(2, 70));
+            ops.push(dist(&s, None));
+        }
+        c.push(hist(Mode::Existing, admin.clone(), ms.clone(), ops.clone()));
+        c.push(hist(Mode::Reply, admin, ms, ops));
+    }
+    // malformed / unauthorised group updates
+    c.push(hist(
+        Mode::Existing,
+        some(ADMIN),
+        vec![mem(1, 2), mem(2, 3)],
+        vec![
+            Op::UpdateMembers { sender: ADMIN.into(), adds: vec![mem(3, 1)], rems: vec![] },
+            Op::UpdateMembers { sender: STRANGER.into(), adds: vec![], rems: vec![member_name(1)] },
+            upd(vec![mem(3, 1), mem(3, 2)], vec![]),
+            upd(vec![mem(3, 1)], vec![member_name(3), member_name(9), member_name(3)]),
+            upd(vec![mem(5, 1), mem(4, 1), mem(1, 9)], vec![member_name(2)]),
+            dep(2, 100),
+            dist(ADMIN, Some(vec![])),
+            dist(ADMIN, Some(vec![0, 1, 3])),
+            dist(ADMIN, Some(vec![2])),
+        ],
+    ));
+    // immutable group (no group admin)
+    c.push(Case::Hist(Hist { mode: Mode::Existing, admin: None, gadmin: None, members: vec![mem(1, 1), mem(2, 2)], ops: vec![upd(vec![mem(3, 1)], vec![]), dep(3, 10), dist(&member_name(2), None)] }));
+    c
+}
+
+fn random_hist(rng: &mut Rng, pool: &[u128]) -> Case {
+    let n = match rng.below(10) {
+        0 => rng.range(26, 30),
+        1 => 25,
+        2 => 1,
+        _ => rng.range(1, 25),
+    };
+    let wpool: [u64; 9] = [0, 1, 1, 2, 3, 10, 1000, 1_000_000_007, u64::MAX / 64];
+    let mut members: Vec<(String, u64)> = (0..n).map(|i| mem(i, *rng.pick(&wpool))).collect();
+    if rng.chance(1, 12) {
+        members.push((SELF.to_string(), *rng.pick(&wpool)));
+    }
+    let mode = if n > 25 || total(&members) == 0 || rng.chance(1, 3) { Mode::Reply } else { Mode::Existing };
+    let admin = if rng.chance(2, 3) { some(ADMIN) } else { None };
+    let nops = rng.range(6, 16);
+    let mut ops = vec![];
+    let mut cur = members.clone();
+    let mut cur_admin = admin.clone();
+    let mut supply = [0u128; 4];
+    for _ in 0..nops {
+        let w = total(&cur).max(1);
+        match rng.below(10) {
+            0..=2 => {
+                let d = rng.below(4) as usize;
+                let amt = match rng.below(6) {
+                    0 => w - 1,
+                    1 => w,
+                    2 => w * rng.range(1, 50) as u128 + rng.below(w.min(u64::MAX as u128) as u64) as u128,
+                    3 => *rng.pick(pool),
+                    4 => rng.u128_any_size() >> 2,
+                    _ => rng.below(5000) as u128,
+                };
+                if supply[d].checked_add(amt).map_or(false, |s| s < u128::MAX / 2) && amt > 0 {
+                    supply[d] += amt;
+                    ops.push(dep(d, amt));
+                }
+            }
+            3..=4 => {
+                let mut adds = vec![];
+                let mut rems = vec![];
+                for _ in 0..rng.below(4) {
+                    let i = rng.below(32);
+                    if !adds.iter().any(|(a, _): &(String, u64)| *a == member_name(i)) || rng.chance(1, 20) {
+                        adds.push(mem(i, *rng.pick(&wpool)));
+                    }
+                }
+                for _ in 0..rng.below(3) {
+                    rems.push(member_name(rng.below(32)));
+                }
+                let sender = if rng.chance(9, 10) { GADMIN } else { STRANGER };
+                ops.push(Op::UpdateMembers { sender: sender.into(), adds: adds.clone(), rems: rems.clone() });
+                if sender == GADMIN {
+                    // track the group for value choice only (the real group is queried by the monitors)
+                    let mut names = BTreeSet::new();
+                    if adds.iter().all(|(a, _)| names.insert(a.clone())) {
+                        for (a, wt) in adds {
+                            cur.retain(|(x, _)| *x != a);
+                            cur.push((a, wt));
+                        }
+                        for r in rems {
+                            cur.retain(|(x, _)| *x != r);
+                        }
+                    }
+                }
+            }
+            5 => {
+                let sender = *rng.pick(&[ADMIN, ADMIN2, STRANGER]);
+                let na = match rng.below(4) {
+                    0 => None,
+                    1 => some(ADMIN),
+                    _ => some(ADMIN2),
+                };
+                if rng.chance(1, 3) {
+                    if cur_admin.as_deref() == Some(sender) {
+                        cur_admin = na.clone();
+                    }
+                    ops.push(Op::UpdateAdmin { sender: sender.into(), new_admin: na });
+                }
+            }
+            _ => {
+                let a_member = cur.get(rng.below(cur.len().max(1) as u64) as usize).map(|(a, _)| a.clone()).unwrap_or(STRANGER.to_string());
+                let sender = match rng.below(14) {
+                    0 => STRANGER.to_string(),
+                    1 => ADMIN2.to_string(),
+                    2 => a_member,
+                    3 => ADMIN.to_string(),
+                    _ => cur_admin.clone().unwrap_or(a_member),
+                };
+                let denoms = match rng.below(5) {
+                    0 | 1 => None,
+                    2 => Some(vec![rng.below(4) as usize]),
+                    3 => {
+                        let mut v: Vec<usize> = (0..4).filter(|_| rng.chance(2, 3)).collect();
+                        if rng.chance(1, 2) {
+                            v.reverse();
+                        }
+                        Some(v)
+                    }
+                    _ => Some((0..rng.range(1, 4)).map(|_| rng.below(4) as usize).collect()),
+                };
+                // mostly make sure there is something to hand out in a listed denom
+                if rng.chance(3, 4) {
+                    let d = match &denoms {
+                        Some(v) if !v.is_empty() => *rng.pick(v),
+                        _ => rng.below(4) as usize,
+                    };
+                    let amt = w * rng.range(1, 9) as u128 + rng.below(w.min(u64::MAX as u128) as u64) as u128;
+                    if supply[d].checked_add(amt).map_or(false, |s| s < u128::MAX / 2) {
+                        supply[d] += amt;
+                        ops.push(dep(d, amt));
+                    }
+                }
+                ops.push(Op::Distribute { sender, denoms });
+            }
+        }
+    }
+    Case::Hist(Hist { mode, admin, gadmin: some(GADMIN), members, ops })
+}
+
+fn gen_cases(a: &Args) -> Vec<Case> {
+    let mut rng = Rng::new(a.seed);
+    let mut pool: Vec<u128> = vec![];
+    for l in harvest_literals(&["contracts/splits/src/contract.rs"]) {
+        for d in [l.saturating_sub(1), l, l + 1] {
+            pool.push(d);
+        }
+    }
+    pool.extend([1u128 << 64, (1u128 << 64) - 1, (1u128 << 64) + 1, 1u128 << 100]);
+    let mut cases = corpus();
+    cases.extend(boundary(&mut rng));
+    let nrand = if a.thorough() { 4000 } else { 220 };
+    for _ in 0..nrand {
+        cases.push(random_hist(&mut rng, &pool));
+    }
+    cases
+}
+
+pub fn run(a: &Args) {
+    let out = OutDir::new(&a.out);
+    let mut rep = Report { property: "C15".into(), tier: a.tier.clone(), seed: a.seed, ..Default::default() };
+    let cases: Vec<Case> = if let Some(p) = &a.replay {
+        #[derive(Deserialize)]
+        struct ReplayFile {
+            case: Case,
+        }
+        let txt = std::fs::read_to_string(p).expect("replay file");
+        let rf: ReplayFile = serde_json::from_str(&txt).expect("replay json");
+        vec![rf.case]
+    } else {
+        gen_cases(a)
+    };
+    let mut coq_cases = vec![];
+    let mut distinct = BTreeSet::new();
+    let mut nviol = 0;
+    let mut seen_keys = BTreeSet::new();
+    for (i, c) in cases.iter().enumerate() {
+        let o = run_case(c);
+        for s in &o.steps {
+            rep.evaluations += 1;
+            rep.bump(&format!("{}:{}", s.kind, if s.ok { "ok" } else { "err" }));
+        }
+        if let Case::Hist(h) = c {
+            rep.bump(&format!("group_size:{}", match h.members.len() { 0 => "0", 1 => "1", 2..=24 => "2-24", 25 => "25", 26..=30 => "26-30", _ => ">30" }));
+        }
+        if o.paid_something {
+            distinct.insert(c.clone());
+        }
+        for (key, what) in &o.viol {
+            nviol += 1;
+            if !seen_keys.insert(key.clone()) || rep.violations.len() >= 20 {
+                continue;
+            }
+            let small = match c {
+                Case::Hist(h) => Case::Hist(shrink(h, key)),
+                other => other.clone(),
+            };
+            let body = format!(
+                "{{\n \"property\": \"C15\",\n \"key\": {},\n \"case\": {},\n \"violation\": {}\n}}\n",
+                serde_json::to_string(key).unwrap(),
+                serde_json::to_string(&small).unwrap(),
+                serde_json::to_string(what).unwrap()
+            );
+            let path = out.write_replay(&format!("C15-{}.json", rep.violations.len() + 1), &body);
+            rep.violations.push(Violation { key: key.clone(), what: what.clone(), replay: path });
+        }
+        if rep.samples.len() < 3 && (i % 97 == 3 || a.replay.is_some()) {
+            rep.samples.push(serde_json::json!({"case": format!("{:?}", c), "steps": o.steps.iter().map(|s| format!("{}:{}", s.kind, if s.ok {"ok"} else {"err"})).collect::<Vec<_>>()}));
+        }
+        coq_cases.push(o.coq);
+    }
+    rep.evaluations = rep.evaluations.max(coq_cases.len() as u64);
+    rep.distinct_nontrivial = distinct.len() as u64;
+    rep.rule = "histories over real cw4-group + sg-splits (+bank): corpus, guard-boundary probes (group sizes 0,1,24,25,26,29,30,31,33 on the instantiate and distribute paths, balances W-1/W/W+1/2W-1/2W/kW+r per denom, every sender role with and without admin, u64/u128 extremes, duplicated denoms), random histories of deposits/member updates/admin changes/distributions with explicit and implicit denom lists. evaluations = steps executed; non-trivial = distinct history in which at least one Distribute succeeded (coins actually moved).".into();
+    // `evaluations` counts steps; the correspondence driver reports failures per case
+    rep.notes.push(format!("{} cases (histories / instantiate probes), {} steps", coq_cases.len(), rep.evaluations));
+    out.write_cases("C15", "From LP Require Import Splits C15Corr.", "c15_case", "c15_check", &coq_cases, 6, &mut rep);
+    out.finish(&rep);
+    println!("C15 harness: {} cases, {} steps, {} monitor violations", coq_cases.len(), rep.evaluations, nviol);
 }
